@@ -104,3 +104,18 @@ Theorem C16_no_flag_no_write : forall cfg work env file,
   c_update cfg = false -> f_change (run_file_full cfg work env file) = Untouched.
 Proof. exact no_flag_no_write. Qed.
 Print Assumptions C16_no_flag_no_write.
+
+(* an update that cannot be stored is a reported failure of the run, never a crash or a pass *)
+Theorem C16_update_error_fails : forall cfg work env file,
+  f_change (run_file_full cfg work env file) = UpdateError ->
+  (exists n, r_verdict (f_run (run_file_full cfg work env file)) = Fail n)
+  /\ r_fail_lines (f_run (run_file_full cfg work env file))
+     = r_fail_lines (run_file cfg work env file) ++ [s_lineno (r_final (run_file cfg work env file))].
+Proof. exact update_error_fails. Qed.
+Print Assumptions C16_update_error_fails.
+
+Theorem C16_update_ok_verdict : forall cfg work env file,
+  f_change (run_file_full cfg work env file) <> UpdateError ->
+  f_run (run_file_full cfg work env file) = run_file cfg work env file.
+Proof. exact update_ok_verdict. Qed.
+Print Assumptions C16_update_ok_verdict.
